@@ -113,7 +113,7 @@ def run_shard(desc):
             continue
         for orient in orients:
             for ii, ids in enumerate(idl):
-                d = dyn.build(topo, kt, orient, ids, (orient + ii) % n, labels=(dyn.LABELS_LIKE_IDS[:n] if ii % 2 else None))
+                d = dyn.build(topo, kt, orient, ids, (orient + ii) % n, labels=dyn.labels_for(orient, ii, n))
                 judge(d, res)
     return res
 
